@@ -20,7 +20,11 @@ def main():
     cap = int(sys.argv[1]) if len(sys.argv) > 1 else 2 << 30
     resource.setrlimit(resource.RLIMIT_AS, (cap, cap))
     signal.signal(signal.SIGALRM, on_alarm)
+    hangs = 0
     for line in sys.stdin:
+        if hangs >= 3:
+            print("SKIPPED-AFTER-HANGS\t0\t0", flush=True)
+            continue
         entry, _, hexs = line.strip().partition(" ")
         data = bytes.fromhex(hexs)
         t0 = time.time()
@@ -30,6 +34,7 @@ def main():
             out = impl.run_par(e_name, False, e_src or "seek", data)
         except Timeout:
             out = "HANG"
+            hangs += 1
         except MemoryError:
             out = "!MemoryError"
         except BaseException as e:  # noqa: BLE001
